@@ -180,6 +180,42 @@ fn der_inputs(r: &mut Rng, w: usize) -> Vec<Vec<u8>> {
     out
 }
 
+/// Exhaustive over a boundary alphabet: every octet string of length <= 3, and every TLV `02 len c0 c1 .. cL`
+/// with L in 0..=w+2 whose first two content octets, last content octet and length octet variation are drawn
+/// from the alphabet (the middle octets are constant), so that each canonicality rule meets each length.
+const ALPHA: [u8; 8] = [0x00, 0x01, 0x02, 0x7f, 0x80, 0x81, 0x82, 0xff];
+fn der_exhaustive(w: usize) -> Vec<Vec<u8>> {
+    let mut out: Vec<Vec<u8>> = vec![vec![]];
+    for a in ALPHA { out.push(vec![a]); for b in ALPHA { out.push(vec![a, b]); for c in ALPHA { out.push(vec![a, b, c]); } } }
+    for len in 0..=w + 2 {
+        for &c0 in &ALPHA { for &c1 in &ALPHA { for &cl in &[0x00u8, 0x01, 0x80, 0xff] { for &mid in &[0x00u8, 0xa5] {
+            let mut c = vec![mid; len];
+            if len >= 1 { c[0] = c0; }
+            if len >= 2 { c[1] = c1; }
+            if len >= 3 { c[len - 1] = cl; }
+            if (len < 3 && (cl != 0 || mid != 0)) || (len < 2 && c1 != 0) || (len < 1 && c0 != 0) || (len < 4 && mid != 0) { continue; }
+            out.push(tlv(2, &c, 0));
+            if c0 == 0x00 && c1 == 0x80 && cl == 0x01 { for form in 1..=4 { out.push(tlv(2, &c, form)); } }     // every non-minimal length form
+        } } } }
+    }
+    out
+}
+fn rlp_exhaustive(w: usize) -> Vec<Vec<u8>> {
+    let mut out: Vec<Vec<u8>> = vec![vec![]];
+    for a in 0..=255u8 { out.push(vec![a]); }                                  // every single octet
+    for a in [0x80u8, 0x81, 0x82, 0xb7, 0xb8, 0xb9, 0xc0, 0xc1, 0xf8] { for b in ALPHA { out.push(vec![a, b]); for c in ALPHA { out.push(vec![a, b, c]); } } }
+    for len in 1..=w + 2 {
+        for &c0 in &ALPHA { for &c1 in &[0x00u8, 0x01, 0x80, 0xff] { for &mid in &[0x00u8, 0xa5] {
+            let mut c = vec![mid; len];
+            c[0] = c0;
+            if len >= 2 { c[1] = c1; }
+            if (len < 2 && c1 != 0) || (len < 3 && mid != 0) { continue; }
+            for form in 0..=3 { out.push(rlp_item(&c, form)); }
+        } } }
+    }
+    out
+}
+
 fn derr(e: der::Error) -> O {
     let _ = e;
     O::err("der")
@@ -208,8 +244,9 @@ where
         cx.call(Ev::new("der_vlen", "uint.EncodeValue.value_len").n("x", &v).i("bits", bits), || match x.value_len() { Ok(l) => O::ok().i("n", u32::from(l) as i64), Err(e) => derr(e) });
     }
     // decoders
-    for _ in 0..reps {
-        for src in der_inputs(&mut cx.rng, w) {
+    for rep in 0..reps + (w <= 24) as usize {
+        let inputs = if rep == reps { der_exhaustive(w) } else { der_inputs(&mut cx.rng, w) };
+        for src in inputs {
             let ev = |form: &str| Ev::new("der_dec", form).b("src", &src).i("bits", bits);
             cx.call(ev("uint.Decode.from_der"), || match Uint::<N>::from_der(&src) { Ok(y) => O::ok().n("y", &raw(&y)), Err(e) => derr(e) });
             cx.call(ev("uint.TryFrom<AnyRef>"), || match AnyRef::from_der(&src).and_then(Uint::<N>::try_from) { Ok(y) => O::ok().n("y", &raw(&y)), Err(e) => derr(e) });
@@ -340,8 +377,9 @@ where
 {
     let bits = 64 * N as i64;
     let w = 8 * N;
-    for _ in 0..reps {
-        for src in rlp_inputs(&mut cx.rng, w) {
+    for rep in 0..reps + 1 {
+        let inputs = if rep == reps { rlp_exhaustive(w) } else { rlp_inputs(&mut cx.rng, w) };
+        for src in inputs {
             let ev = |form: &str| Ev::new("rlp_dec", form).b("src", &src).i("bits", bits);
             cx.call(ev("rlp::decode"), || match rlp::decode::<Uint<N>>(&src) { Ok(y) => O::ok().n("y", &raw(&y)), Err(e) => rerr(e) });
             cx.call(ev("Rlp.as_val"), || match rlp::Rlp::new(&src).as_val::<Uint<N>>() { Ok(y) => O::ok().n("y", &raw(&y)), Err(e) => rerr(e) });
